@@ -386,6 +386,10 @@ static Word    WordAcc;
 static Boolean WordAccFull;
 
 static void PlaceValue(Word Value, Boolean IsByte) {
+    if (SetMaxCodeLen((CodeLen + 2) << 1)) {
+        WrError(ErrNum_CodeOverflow);
+        return;
+    }
     if (ActPC != SegCode) {
         BAsmCode[CodeLen++] = Value;
         WordAccFull         = False;
